@@ -66,8 +66,26 @@ Definition chk_pair (c : ts_spec * ts_spec * list N * pobs) : bool :=
   (* goroutines still alive after everything returned = closers inside a Close that blocks *)
   ((match clU f with CBlocked => 1 | _ => 0 end) + (match clD f with CBlocked => 1 | _ => 0 end) =? nblk).
 
+(* real-TCP lane: both connections are *net.TCPConn.  Whatever the peers do, the model (for kinds
+   KTcp, KTcp; the peers' behaviour is abstracted by "every call eventually returns") ends with the
+   caller returned and a full SetLinger+Close sequence on both connections.
+   observed: the kinds the driver saw, Proxy returned, each reading peer saw its connection closed *)
+Definition empty_ts : tscript :=
+  {| t_reads := []; t_writes := []; t_dls := []; t_cdst := None; t_csrc := None; t_csrc_blocks := false |}.
+Definition chk_tcp (c : bool * bool * bool * bool * bool) : bool :=
+  let '(ka_tcp, kb_tcp, returned, closed_a, closed_b) := c in
+  let k := fun b : bool => if b then KTcp else KOther in
+  let c0 := init_cfg_k (k ka_tcp) (k kb_tcp) 0 empty_ts empty_ts in
+  let f := run c0 (round_robin (measure c0)) in
+  finished f && Bool.eqb (match main f with MDone => true | _ => false end) returned &&
+  Bool.eqb (closedA f && existsb (fun o => match o with CClose => true | _ => false end) (opsA f)) closed_a &&
+  Bool.eqb (closedB f && existsb (fun o => match o with CClose => true | _ => false end) (opsB f)) closed_b &&
+  (if ka_tcp then match opsA f with CSetLinger :: CClose :: _ => true | _ => false end else true) &&
+  (if kb_tcp then match opsB f with CSetLinger :: CClose :: _ => true | _ => false end else true).
+
 Inductive ccase :=
   | CHalf (c : ts_spec * bool * hobs)
-  | CPair (c : ts_spec * ts_spec * list N * pobs).
+  | CPair (c : ts_spec * ts_spec * list N * pobs)
+  | CTcp (c : bool * bool * bool * bool * bool).
 Definition chk (c : ccase) : bool :=
-  match c with CHalf x => chk_half x | CPair x => chk_pair x end.
+  match c with CHalf x => chk_half x | CPair x => chk_pair x | CTcp x => chk_tcp x end.
